@@ -5,7 +5,7 @@ read-size compositions / chunk sizes / algorithm names on the real hashing
 streams and drivers, vs hashlib / blake3 on the whole content.
 """
 
-CASE_TIMEOUT = 20  # seconds per pool task (the unchanged tree needs a small fraction of this)
+CASE_TIMEOUT = 30  # seconds per pool task (the unchanged tree needs a small fraction of this)
 
 import io
 import itertools
@@ -93,7 +93,7 @@ def check_string(s, full):
             viol.append(("stream-miscounts", f"total_read={st.total_read} len={n} sizes={comp}"))
     # (1b) hash_value is a pure observer: polling it before / between reads changes nothing, and for a plain
     # algorithm it is the digest of the bytes read so far
-    for name, rds in (("md5", (1, 2)), ("sha256", (3,)), ("md5-dos2unix", (512, 600))):
+    for name, rds in (("md5", (1, 2)), ("sha256", (3,)), ("blake3", (2,)), ("md5-dos2unix", (512, 600))):
         for rd in rds:
             polled = get_hash_stream(io.BytesIO(s), name=name)
             quiet = get_hash_stream(io.BytesIO(s), name=name)
@@ -111,6 +111,22 @@ def check_string(s, full):
             n_ops += 1
             if polled.hash_value != quiet.hash_value:
                 viol.append((f"polling-hash_value-changes-the-digest/{name}", f"read={rd} data={s!r}"))
+    # (1c) streams are independent: a finished stream's digest is not disturbed by a later stream of the same
+    # algorithm over other bytes, and two live streams read in turns each report their own content
+    for name in ("md5", "sha256", "blake3"):
+        a = get_hash_stream(io.BytesIO(s), name=name)
+        while a.read(3):
+            pass
+        other = b"other-stream:" + s[::-1]
+        b_ = get_hash_stream(io.BytesIO(other), name=name)
+        b_.read(5)
+        n_ops += 1
+        if a.hash_value != ref.digest(name, s):
+            viol.append((f"finished-stream-disturbed-by-a-later-stream/{name}", f"data={s!r}"))
+        while b_.read(4):
+            pass
+        if b_.hash_value != ref.digest(name, other) or a.hash_value != ref.digest(name, s):
+            viol.append((f"two-streams-of-one-algorithm-interfere/{name}", f"data={s!r}"))
     # (2) every algorithm name, one composition each
     for i, name in enumerate(PLAIN_ALGOS):
         comp = comps[i % len(comps)]
@@ -276,7 +292,7 @@ def check_files(case):
 
     viol, n = [], 0
     big = [b"x" * (2**20 - 1), b"y" * (2**20), b"z\r\n" * 350000, b"\x00" * (2**21 + 3)]
-    datas = structured()[:: max(1, len(structured()) // 12)] + big + [b"", b"a", b"a\r\nb\r\n"]
+    datas = structured()[:: max(1, len(structured()) // 12)] + big + [b"", b"a", b"a\r\nb\r\n", b"l1\r\nl2"]
     with World() as w:
         m = MemoryFileSystem(global_store=False)
         for i, s in enumerate(datas):
@@ -303,7 +319,8 @@ def check_files(case):
         from dvc_data.hashfile.state import State
 
         algos = ("md5", "sha256", "md5-dos2unix", "sha1", "blake3")
-        small = [d for d in datas if len(d) <= 2**20][:8]
+        small = [d for d in datas if len(d) <= 2**20][:6] + [b"a\r\nb\r\n", b"l1\r\nl2"]   # (CR LF texts: the
+        # legacy digest differs from the md5)
         for i, s in enumerate(small):
             for a1 in algos:
                 for a2 in algos:
